@@ -503,6 +503,25 @@ theorem interpRow_inrange {l : List (Sample K m)} (hl : 0 < l.length) (t : K)
   unfold interpRow
   simp [h0, h1]
 
+/-- `bracket` with the indices named: the neighbours are `lo` and `lo + 1` -/
+theorem bracket' {l : List (Sample K m)} (h2 : 2 ≤ l.length) (hs : Sorted l) (t : K)
+    (h0 : l[0].t ≤ t) (h1 : t ≤ (l[l.length - 1]'(by omega)).t) :
+    ∃ (lo : Nat) (hlo : lo + 1 < l.length),
+      hiIdx l.length (searchLeft l t) = lo + 1 ∧ loIdx l.length (lo + 1) = lo ∧ l[lo].t ≤ t ∧ t ≤ l[lo + 1].t := by
+  obtain ⟨hhi, hlo, hlohi, hx0, hx1⟩ := bracket h2 hs t h0 h1
+  refine ⟨loIdx l.length (hiIdx l.length (searchLeft l t)), by omega, hlohi.symm, by simp [loIdx], hx0, ?_⟩
+  rw [getElem_congr_idx hlohi.symm] at hx1
+  exact hx1
+
+/-- `interpRow_inrange` with the indices named -/
+theorem interpRow_inrange' {l : List (Sample K m)} (hl : 0 < l.length) (t : K)
+    (h0 : ¬ t < l[0].t) (h1 : ¬ (l[l.length - 1]'(by omega)).t < t) (c : Nat) (hc : c < m)
+    (lo hi : Nat) (ehi : hiIdx l.length (searchLeft l t) = hi) (elo : loIdx l.length hi = lo)
+    (hhi : hi < l.length) (hlo : lo < l.length) :
+    (interpRow l hl t)[c] = lerp l[lo].t l[hi].t t l[lo].row[c] l[hi].row[c] := by
+  subst ehi; subst elo
+  exact interpRow_inrange hl t h0 h1 c hc
+
 theorem interpRow_below {l : List (Sample K m)} (hl : 0 < l.length) (hs : Sorted l) (t : K) (ht : t < l[0].t) :
     interpRow l hl t = l[0].row := by
   have hlast : ¬ (l[l.length - 1]'(by omega)).t < t := by
@@ -537,6 +556,60 @@ theorem interpRow_at_sample {l : List (Sample K m)} (h2 : 2 ≤ l.length) (hs : 
       simp only [loIdx]; split <;> omega
     simp only [e1, e2]
     exact lerp_at_hi _ _ _ _ (hs.lt (by omega) hi (by omega))
+
+/-! ### shifting the query times, windows, zero delay -/
+
+theorem strictInc_shift (nt : List K) (d : K) : strictInc (nt.map (· + d)) = strictInc nt := by
+  induction nt with
+  | nil => rfl
+  | cons a nt ih =>
+    cases nt with
+    | nil => rfl
+    | cons b nt =>
+      simp only [List.map_cons, strictInc] at ih ⊢
+      rw [ih]
+      simp
+
+/-- the slice `[searchLeft lo : searchRight hi]` of a sorted series holds exactly the samples with `lo ≤ t ≤ hi` -/
+theorem mem_window {l : List (Sample K m)} (hs : Sorted l) (lo hi : K) (p : Sample K m) :
+    p ∈ (l.take (searchRight l hi)).drop (searchLeft l lo) ↔ p ∈ l ∧ lo ≤ p.t ∧ p.t ≤ hi := by
+  constructor
+  · intro hp
+    obtain ⟨k, hk⟩ := List.mem_iff_getElem?.1 hp
+    rw [List.getElem?_drop, List.getElem?_take] at hk
+    split at hk
+    · rename_i hlt
+      obtain ⟨hidx, hpk⟩ := List.getElem?_eq_some_iff.1 hk
+      subst hpk
+      refine ⟨List.getElem_mem _, ?_, ?_⟩
+      · have hi' : searchLeft l lo < l.length := by omega
+        exact le_trans (not_lt.1 (searchLeft_not_lt l lo hi')) (hs.le hi' hidx (by omega))
+      · exact not_lt.1 (searchRight_not_lt l hi _ hlt hidx)
+    · simp at hk
+  · rintro ⟨hp, hlo, hhi⟩
+    obtain ⟨k, hk, rfl⟩ := List.mem_iff_getElem.1 hp
+    have h1 : searchLeft l lo ≤ k := by
+      by_contra hc
+      exact absurd (searchLeft_lt l lo k (by omega) hk) (not_lt.2 hlo)
+    have h2 : k < searchRight l hi := by
+      by_contra hc
+      have hj : searchRight l hi < l.length := by omega
+      have := searchRight_lt l hi hj
+      exact absurd (lt_of_lt_of_le this (hs.le hj hk (by omega))) (not_lt.2 hhi)
+    apply List.mem_iff_getElem?.2
+    refine ⟨k - searchLeft l lo, ?_⟩
+    rw [List.getElem?_drop, List.getElem?_take, show searchLeft l lo + (k - searchLeft l lo) = k by omega, if_pos h2]
+    exact List.getElem?_eq_getElem hk
+
+/-- writing back what is already there changes nothing -/
+theorem setCols_self (cols : List (Fin m)) (src : List K) (row : Vector K m) (hlen : src.length = cols.length)
+    (hsrc : ∀ (j : Nat) (h1 : j < cols.length) (h2 : j < src.length), src[j] = row[cols[j]]) :
+    setCols cols src row = row := by
+  apply Vector.ext
+  intro c hc
+  have := setCols_getElem (fun c : Fin m => row[c]) cols src row hlen hsrc ⟨c, hc⟩
+  simp only [Fin.getElem_fin, ite_self] at this
+  exact this
 
 end Ordered
 
